@@ -378,15 +378,23 @@ theorem tryAutoCommit_spec {sh sh' : Shared D L} (h : Shared.tryAutoCommit env s
     reports *commit*; then either the pre-edit was empty and ONE character was committed (the
     pre-edit stays as it was), or it is `SharedState::commit` of `sh0` (the whole buffer) — and the
     latter only where `w` holds (`w` will be "the key is Enter") -/
-def CommitShape (w : Prop) (sh0 : Shared D L) (r : StepRes D L) : Prop :=
+def CommitShape (w : Prop) (Q : Nat → Prop) (sh0 : Shared D L) (r : StepRes D L) : Prop :=
   ∀ sh' t, r = .ok (sh', t) →
     (t ≠ .spin .commit ∧ sh'.commitBuf = sh0.commitBuf) ∨
     (t = .spin .commit ∧
       ((sh0.com.isEmpty = true ∧ sh'.com = sh0.com ∧
-          ∃ ch, sh'.commitBuf = [ch] ∨ sh'.commitBuf = sh0.commitBuf ++ [ch]) ∨
+          ∃ ch, Q ch ∧ (sh'.commitBuf = [ch] ∨ sh'.commitBuf = sh0.commitBuf ++ [ch])) ∨
        (w ∧ Shared.commit env sh0 = .ok sh')))
 
-variable {w : Prop}
+variable {w : Prop} {Q : Nat → Prop}
+
+/-- the characters a key may commit directly from an empty pre-edit: its own character, the full-width
+    form of its own character, or — Space as selection key — a half- or full-width space -/
+def DirectChar (ev : KeyEvent) (ch : Nat) : Prop :=
+  ch = ev.unicode ∨ fullWidthSymbolInput ev.unicode = some ch ∨ (ev.code = KC.space ∧ (ch = 32 ∨ ch = 12288))
+
+theorem and3_left {x y z : Bool} (h : (x && y && z) = true) : x = true := by
+  cases x <;> simp_all
 
 /-- closes `CommitShape sh0 (.ok (x, t))` for a concrete non-commit transition `t` -/
 macro "cshape_leaf" : tactic =>
@@ -394,17 +402,17 @@ macro "cshape_leaf" : tactic =>
              exact Or.inl ⟨(fun c => by cases c), by first | rfl | assumption⟩))
 
 theorem cshape_ite {sh0 : Shared D L} {c : Prop} [Decidable c] {a b : StepRes D L}
-    (h1 : CommitShape env w sh0 a) (h2 : CommitShape env w sh0 b) : CommitShape env w sh0 (if c then a else b) := by
+    (h1 : CommitShape env w Q sh0 a) (h2 : CommitShape env w Q sh0 b) : CommitShape env w Q sh0 (if c then a else b) := by
   split <;> assumption
 
-theorem cshape_panic (sh0 : Shared D L) (p : String) : CommitShape env w sh0 (.panic p) := by
+theorem cshape_panic (sh0 : Shared D L) (p : String) : CommitShape env w Q sh0 (.panic p) := by
   intro sh' t h; cases h
 
-theorem cshape_fuel (sh0 : Shared D L) : CommitShape env w sh0 .outOfFuel := by
+theorem cshape_fuel (sh0 : Shared D L) : CommitShape env w Q sh0 .outOfFuel := by
   intro sh' t h; cases h
 
 theorem cshape_withCom_absorb (sh0 sh : Shared D L) (hb : sh.commitBuf = sh0.commitBuf) (r : Outcome CompEditor) :
-    CommitShape env w sh0 (withCom sh r fun sh => .ok (sh, .spin .absorb)) := by
+    CommitShape env w Q sh0 (withCom sh r fun sh => .ok (sh, .spin .absorb)) := by
   unfold withCom
   cases r with
   | ok c => cshape_leaf
@@ -412,33 +420,36 @@ theorem cshape_withCom_absorb (sh0 sh : Shared D L) (hb : sh.commitBuf = sh0.com
   | outOfFuel => exact cshape_fuel env _
 
 theorem cshape_commitOrInsert (sh0 sh : Shared D L) (hc : sh.com = sh0.com) (hb : sh.commitBuf = sh0.commitBuf)
-    (ch : Nat) : CommitShape env w sh0 (commitOrInsert sh ch) := by
+    (ch : Nat) (hq : Q ch) : CommitShape env w Q sh0 (commitOrInsert sh ch) := by
   unfold commitOrInsert
   split
   · rename_i he
     intro sh' t h; injection h with h; injection h with h1 h2; subst h1 h2
-    exact Or.inr ⟨rfl, Or.inl ⟨by rw [← hc]; exact he, hc, ch, Or.inl rfl⟩⟩
+    exact Or.inr ⟨rfl, Or.inl ⟨by rw [← hc]; exact he, hc, ch, hq, Or.inl rfl⟩⟩
   · exact cshape_withCom_absorb env _ _ hb _
 
 theorem cshape_inputChar (sh0 sh : Shared D L) (hc : sh.com = sh0.com) (hb : sh.commitBuf = sh0.commitBuf)
-    (ev : KeyEvent) : CommitShape env w sh0 (inputChar sh ev) := by
+    (ev : KeyEvent) (hq : ∀ ch, ch = ev.unicode ∨ fullWidthSymbolInput ev.unicode = some ch → Q ch) :
+    CommitShape env w Q sh0 (inputChar sh ev) := by
   unfold inputChar fullOrPanic
   repeat' split
   all_goals first
-    | exact cshape_commitOrInsert env _ _ hc hb _
+    | exact cshape_commitOrInsert env _ _ hc hb _ (hq _ (Or.inl rfl))
+    | exact cshape_commitOrInsert env _ _ hc hb _ (hq _ (Or.inr ‹_›))
     | exact cshape_panic env _ _
 
 theorem cshape_chineseFallback (sh0 sh : Shared D L) (hc : sh.com = sh0.com) (hb : sh.commitBuf = sh0.commitBuf)
-    (ev : KeyEvent) : CommitShape env w sh0 (chineseFallback sh ev) := by
+    (ev : KeyEvent) (hq : ∀ ch, ch = ev.unicode ∨ fullWidthSymbolInput ev.unicode = some ch → Q ch) :
+    CommitShape env w Q sh0 (chineseFallback sh ev) := by
   unfold chineseFallback
   repeat' split
   all_goals first
     | exact cshape_withCom_absorb env _ _ hb _
-    | exact cshape_inputChar env _ _ hc hb _
+    | exact cshape_inputChar env _ _ hc hb _ hq
     | cshape_leaf
 
 theorem cshape_newPhrase (sh0 sh : Shared D L) (hb : sh.commitBuf = sh0.commitBuf) :
-    CommitShape env w sh0 (newPhrase env sh) := by
+    CommitShape env w Q sh0 (newPhrase env sh) := by
   unfold newPhrase
   simp only
   split
@@ -447,7 +458,7 @@ theorem cshape_newPhrase (sh0 sh : Shared D L) (hb : sh.commitBuf = sh0.commitBu
   · exact cshape_fuel env _
 
 theorem cshape_newPhraseSimple (sh0 sh : Shared D L) (hb : sh.commitBuf = sh0.commitBuf) :
-    CommitShape env w sh0 (newPhraseSimple sh) := by
+    CommitShape env w Q sh0 (newPhraseSimple sh) := by
   unfold newPhraseSimple
   simp only
   split
@@ -456,7 +467,7 @@ theorem cshape_newPhraseSimple (sh0 sh : Shared D L) (hb : sh.commitBuf = sh0.co
   · exact cshape_fuel env _
 
 theorem cshape_newSpecialSymbol (sh0 sh : Shared D L) (hb : sh.commitBuf = sh0.commitBuf) (sym : Sym) :
-    CommitShape env w sh0 (newSpecialSymbol sh sym) := by
+    CommitShape env w Q sh0 (newSpecialSymbol sh sym) := by
   unfold newSpecialSymbol
   simp only
   split
@@ -465,7 +476,7 @@ theorem cshape_newSpecialSymbol (sh0 sh : Shared D L) (hb : sh.commitBuf = sh0.c
   · exact cshape_panic env _ _
   · exact cshape_fuel env _
 
-theorem cshape_startSelecting (sh : Shared D L) : CommitShape env w sh (startSelecting env sh) := by
+theorem cshape_startSelecting (sh : Shared D L) : CommitShape env w Q sh (startSelecting env sh) := by
   unfold startSelecting
   repeat' split
   all_goals first
@@ -473,8 +484,8 @@ theorem cshape_startSelecting (sh : Shared D L) : CommitShape env w sh (startSel
     | exact cshape_newSpecialSymbol env _ _ rfl _
     | cshape_leaf
 
-theorem cshape_startSelectingOrInputSpace (sh : Shared D L) :
-    CommitShape env w sh (startSelectingOrInputSpace env sh) := by
+theorem cshape_startSelectingOrInputSpace (sh : Shared D L) (h1 : Q 32) (h2 : Q 12288) :
+    CommitShape env w Q sh (startSelectingOrInputSpace env sh) := by
   unfold startSelectingOrInputSpace
   repeat' split
   all_goals first
@@ -484,7 +495,9 @@ theorem cshape_startSelectingOrInputSpace (sh : Shared D L) :
     | skip
   all_goals
     intro sh' t h; injection h with h; injection h with h1 h2; subst h1 h2
-    exact Or.inr ⟨rfl, Or.inl ⟨by assumption, rfl, _, Or.inr rfl⟩⟩
+    first
+      | exact Or.inr ⟨rfl, Or.inl ⟨by assumption, rfl, _, h1, Or.inr rfl⟩⟩
+      | exact Or.inr ⟨rfl, Or.inl ⟨by assumption, rfl, _, h2, Or.inr rfl⟩⟩
 
 theorem learnInRangeQuiet_commitBuf (sh : Shared D L) (a b : Nat) :
     OutAll (fun x => x.1.commitBuf = sh.commitBuf) (Shared.learnInRangeQuiet env sh a b) := by
@@ -502,7 +515,7 @@ theorem learnInRangeNotify_commitBuf (sh : Shared D L) (a b : Nat) :
   · trivial
 
 theorem cshape_learnTrans (sh0 sh : Shared D L) (hb : sh.commitBuf = sh0.commitBuf) (a b : Nat) :
-    CommitShape env w sh0 (learnTrans (Shared.learnInRangeNotify env sh a b)) := by
+    CommitShape env w Q sh0 (learnTrans (Shared.learnInRangeNotify env sh a b)) := by
   unfold learnTrans
   split
   · rename_i sh1 okk hq
@@ -512,31 +525,32 @@ theorem cshape_learnTrans (sh0 sh : Shared D L) (hb : sh.commitBuf = sh0.commitB
   · exact cshape_panic env _ _
   · exact cshape_fuel env _
 
-theorem cshape_enteringDefault (sh : Shared D L) (ev : KeyEvent) :
-    CommitShape env w sh (enteringDefault env sh ev) := by
+theorem cshape_enteringDefault (sh : Shared D L) (ev : KeyEvent)
+    (hq : ∀ ch, ch = ev.unicode ∨ fullWidthSymbolInput ev.unicode = some ch → Q ch) :
+    CommitShape env w Q sh (enteringDefault env sh ev) := by
   unfold enteringDefault
   repeat' split
   all_goals first
     | exact cshape_withCom_absorb env _ _ rfl _
-    | exact cshape_inputChar env _ _ rfl rfl _
-    | exact cshape_chineseFallback env _ _ rfl rfl _
-    | exact cshape_chineseFallback env sh { sh with syl := (env.keyPress sh.syl ev).2 } rfl rfl ev
+    | exact cshape_inputChar env _ _ rfl rfl _ hq
+    | exact cshape_chineseFallback env _ _ rfl rfl _ hq
+    | exact cshape_chineseFallback env sh { sh with syl := (env.keyPress sh.syl ev).2 } rfl rfl ev hq
     | cshape_leaf
 
-theorem cshape_enteringBackspace (sh : Shared D L) : CommitShape env w sh (enteringBackspace sh) := by
+theorem cshape_enteringBackspace (sh : Shared D L) : CommitShape env w Q sh (enteringBackspace sh) := by
   unfold enteringBackspace
   split
   · cshape_leaf
   · exact cshape_withCom_absorb env _ _ rfl _
 
-theorem cshape_enteringCtrlDigit (sh : Shared D L) (c : Nat) : CommitShape env w sh (enteringCtrlDigit env sh c) := by
+theorem cshape_enteringCtrlDigit (sh : Shared D L) (c : Nat) : CommitShape env w Q sh (enteringCtrlDigit env sh c) := by
   unfold enteringCtrlDigit
   repeat' (first | split | (dsimp only; split))
   all_goals first
     | exact cshape_learnTrans env _ _ rfl _ _
     | cshape_leaf
 
-theorem cshape_enteringTabInside (sh : Shared D L) : CommitShape env w sh (enteringTabInside env sh) := by
+theorem cshape_enteringTabInside (sh : Shared D L) : CommitShape env w Q sh (enteringTabInside env sh) := by
   unfold enteringTabInside
   repeat' split
   all_goals first
@@ -544,21 +558,21 @@ theorem cshape_enteringTabInside (sh : Shared D L) : CommitShape env w sh (enter
     | exact cshape_panic env _ _
     | exact cshape_fuel env _
 
-theorem cshape_enteringDel (sh : Shared D L) : CommitShape env w sh (enteringDel sh) := by
+theorem cshape_enteringDel (sh : Shared D L) : CommitShape env w Q sh (enteringDel sh) := by
   unfold enteringDel
   split
   · cshape_leaf
   · exact cshape_withCom_absorb env _ _ rfl _
 
-theorem cshape_enteringShiftLeft (sh : Shared D L) : CommitShape env w sh (enteringShiftLeft sh) := by
+theorem cshape_enteringShiftLeft (sh : Shared D L) : CommitShape env w Q sh (enteringShiftLeft sh) := by
   unfold enteringShiftLeft
   split <;> cshape_leaf
 
-theorem cshape_enteringShiftRight (sh : Shared D L) : CommitShape env w sh (enteringShiftRight sh) := by
+theorem cshape_enteringShiftRight (sh : Shared D L) : CommitShape env w Q sh (enteringShiftRight sh) := by
   unfold enteringShiftRight
   split <;> cshape_leaf
 
-theorem cshape_enteringEnter (sh : Shared D L) (hw : w) : CommitShape env w sh (enteringEnter env sh) := by
+theorem cshape_enteringEnter (sh : Shared D L) (hw : w) : CommitShape env w Q sh (enteringEnter env sh) := by
   unfold enteringEnter
   split
   · rename_i sh1 hq
@@ -567,20 +581,20 @@ theorem cshape_enteringEnter (sh : Shared D L) (hw : w) : CommitShape env w sh (
   · exact cshape_panic env _ _
   · exact cshape_fuel env _
 
-theorem cshape_enteringEsc (sh : Shared D L) : CommitShape env w sh (enteringEsc sh) := by
+theorem cshape_enteringEsc (sh : Shared D L) : CommitShape env w Q sh (enteringEsc sh) := by
   unfold enteringEsc
   split <;> cshape_leaf
 
 theorem cshape_ite' {sh0 : Shared D L} {c : Prop} [Decidable c] {a b : StepRes D L}
-    (h1 : c → CommitShape env w sh0 a) (h2 : ¬c → CommitShape env w sh0 b) :
-    CommitShape env w sh0 (if c then a else b) := by
+    (h1 : c → CommitShape env w Q sh0 a) (h2 : ¬c → CommitShape env w Q sh0 b) :
+    CommitShape env w Q sh0 (if c then a else b) := by
   split
   · exact h1 ‹_›
   · exact h2 ‹_›
 
 /-- `Entering`: every arm; a whole-buffer commit only in the arm guarded by `code == Enter` -/
 theorem cshape_enteringNext (sh : Shared D L) (ev : KeyEvent) :
-    CommitShape env (ev.code = KC.enter) sh (enteringNext env sh ev) := by
+    CommitShape env (ev.code = KC.enter) (DirectChar ev) sh (enteringNext env sh ev) := by
   unfold enteringNext
   repeat' (with_reducible refine cshape_ite' env (fun _ => ?_) (fun _ => ?_))
   all_goals first
@@ -592,10 +606,11 @@ theorem cshape_enteringNext (sh : Shared D L) (ev : KeyEvent) :
     | exact cshape_enteringShiftRight env _
     | exact cshape_enteringEnter env _ (eq_of_beq ‹_›)
     | exact cshape_enteringEsc env _
-    | exact cshape_commitOrInsert env _ _ rfl rfl _
-    | exact cshape_enteringDefault env _ _
+    | exact cshape_commitOrInsert env _ _ rfl rfl _ (Or.inl rfl)
+    | exact cshape_enteringDefault env _ _ (fun ch h => h.elim Or.inl (fun h => Or.inr (Or.inl h)))
     | exact cshape_startSelecting env _
     | exact cshape_startSelectingOrInputSpace env _
+        (Or.inr (Or.inr ⟨eq_of_beq (and3_left ‹_›), Or.inl rfl⟩)) (Or.inr (Or.inr ⟨eq_of_beq (and3_left ‹_›), Or.inr rfl⟩))
     | cshape_leaf
 
 /-! the other three states never report *commit* and never write the commit buffer -/
